@@ -241,6 +241,7 @@ SPECIAL = {
     'backbone_wu': sp_pairs(lambda mn, M: [('avgdeg', [M.copy(), 2], {})]),
     'grid_communities': sp_pairs(lambda mn, M: [(k, [v.copy()], {}) for k, v in community_vectors(len(M)).items()]),
     'weight_conversion': sp_pairs(lambda mn, M: [(w, [M.copy(), w], {'copy': True}) for w in ('binarize', 'normalize', 'lengths')]),
+    'logtransform': sp_pairs(lambda mn, M: [('pos', [np.abs(M) / (np.abs(M).max() + 1.0) + 0.05], {'copy': True})]),
     'core_periphery_dir': sp_pairs(lambda mn, M: [('C0', [M.copy()], {'seed': 0}),
                                                    ('C0given', [M.copy()], {'C0': np.array(([1, 0, 1, 0, 1, 0])[:len(M)]), 'seed': 0})]),
 }
